@@ -1,4 +1,5 @@
 import EmmetProofs.MergeAbstract
+import EmmetProofs.MergeModel
 /-! # C03 — attribute merging is "group by name, first mention keeps its place" (abstract attribute type)
 
 For ANY attribute type `A` with a name projection `key : A → Option K` (`none` = no name / empty name) and ANY merge function
@@ -11,5 +12,35 @@ namespace EmmetProps
 theorem C03_merge {A K : Type} [DecidableEq K] (key : A → Option K) (m : A → A → A)
     (hm : ∀ a b, key (m a b) = key a) (attrs : List A) :
     Mg.go key m attrs [] = Mg.specL key m attrs := Mg.merge_eq_spec key m hm attrs
+
+/-- The same for the CONCRETE model of `merge_attributes` (`T.mergeAttributes`, the function the correspondence check runs against the
+code): its result is the declarative group-by-name with `T.keyA` (name, `none` when missing or empty) and the model's merge
+function `T.mA`. -/
+theorem C03_merge_model (o : T.Options) (attrs : List T.AAttr) :
+    T.mergeAttributes o attrs = Mg.specL T.keyA (T.mA o) attrs := T.mergeAttributes_spec o attrs
+
+/-- any repeated attribute other than `class`: the merged attribute keeps its name (hence its first position), takes the LAST
+mentioned value — the FIRST one under `output.reverseAttributes` — and the boolean / implied flags of all mentions are or-ed. -/
+theorem C03_other_attribute (o : T.Options) (a : T.AAttr) (later : List T.AAttr) (hc : T.isClass a = false) :
+    let ms := later.filter (Mg.same T.keyA a)
+    let r := Mg.absorb T.keyA (T.mA o) a later
+    r.name = a.name ∧
+    r.value = (if o.reverseAttributes then a.value else ((ms.getLast?.map (·.value)).getD a.value)) ∧
+    r.implied = (a.implied || ms.any (·.implied)) ∧ r.boolean = (a.boolean || ms.any (·.boolean)) :=
+  T.absorb_other o a later hc
+
+/-- `class`: the values of all mentions are merged in the order written, and plain words are joined by single spaces. -/
+theorem C03_class_attribute (o : T.Options) (a : T.AAttr) (later : List T.AAttr) (hc : T.isClass a = true) :
+    let ms := later.filter (Mg.same T.keyA a)
+    let r := Mg.absorb T.keyA (T.mA o) a later
+    r.name = a.name ∧ r.value = ms.foldl (fun v b => T.mergeValue v b.value) a.value := T.absorb_class o a later hc
+theorem C03_class_words (x : T.Str) (ys : List T.Str) :
+    ys.foldl (fun v y => T.mergeValue v (some [.str y])) (some [.str x]) = some [.str (ys.foldl (fun acc y => acc ++ [32] ++ y) x)] :=
+  T.class_words x ys
+
+-- non-vacuity: `.a[t=1].b[t=2]` — class first, `t` second; class = "a b", t = "2"
+example : (T.mergeAttributes {} [⟨some (T.lit "class"), some [.str (T.lit "a")], .raw, false, false, false⟩, ⟨some (T.lit "t"), some [.str (T.lit "1")], .raw, false, false, false⟩,
+      ⟨some (T.lit "class"), some [.str (T.lit "b")], .raw, false, false, false⟩, ⟨some (T.lit "t"), some [.str (T.lit "2")], .raw, false, false, false⟩]).map (fun a => match a.value with | some [.str s] => s | _ => [])
+    = [T.lit "a b", T.lit "2"] := by decide +kernel
 
 end EmmetProps
